@@ -969,9 +969,22 @@ func (db *SiteDB) analyse(fi *FuncInfo) {
 		}
 		return s
 	}
+	litState := map[*ast.FuncLit]*HState{}
 	a.Visit = func(s *HState, n ast.Node, fc *FlowCtx[*HState]) {
 		snap := hCopy(s)
 		chain := ctxChain(fc)
+		// state at the creation of function literals contained in this node
+		ast.Inspect(n, func(m ast.Node) bool {
+			if lit, ok := m.(*ast.FuncLit); ok {
+				if prev, ok := litState[lit]; ok {
+					litState[lit] = hJoin(prev, snap)
+				} else {
+					litState[lit] = snap
+				}
+				return false
+			}
+			return true
+		})
 		switch v := n.(type) {
 		case *ast.GoStmt:
 			db.Blocking = append(db.Blocking, &Site{Node: v, Callee: "go", Fn: fc.Fn, Root: fi, St: snap, Ctx: chain})
@@ -1053,6 +1066,58 @@ func (db *SiteDB) analyse(fi *FuncInfo) {
 		}
 		for _, lit := range pending {
 			st := newHState()
+			// Facts and events established before the literal was created still hold whenever
+			// it runs, provided the variables they mention are not assigned after its creation
+			// (or inside any literal).  Locks are not inherited: when the literal runs is unknown.
+			if cs, ok := litState[lit]; ok && !cs.Dead {
+				assignedLater := map[types.Object]bool{}
+				ast.Inspect(fi.Decl, func(m ast.Node) bool {
+					var lhs []ast.Expr
+					switch v := m.(type) {
+					case *ast.AssignStmt:
+						lhs = v.Lhs
+					case *ast.IncDecStmt:
+						lhs = []ast.Expr{v.X}
+					case *ast.RangeStmt:
+						lhs = []ast.Expr{v.Key, v.Value}
+					}
+					for _, l := range lhs {
+						if l == nil {
+							continue
+						}
+						if obj := objOf(info, l); obj != nil && (m.Pos() > lit.Pos() || l.Pos() > lit.Pos()) {
+							assignedLater[obj] = true
+						}
+					}
+					return true
+				})
+				for _, p := range cs.Paths {
+					np := FactSet{}
+					for k, v := range p {
+						stable := true
+						for _, o := range db.atomObjs[k] {
+							if assignedLater[o] {
+								stable = false
+							}
+						}
+						if stable {
+							np[k] = v
+						}
+					}
+					st.Paths = append(st.Paths, np)
+				}
+				if len(st.Paths) > 1 {
+					st.Paths = st.Paths[1:] // drop the initial empty set
+				}
+				for k, v := range cs.Must {
+					if !strings.HasPrefix(k, "deferunlock:") && !strings.HasPrefix(k, "outer|") {
+						st.Must[k] = v
+					}
+				}
+				for k, v := range cs.May {
+					st.May[k] = v
+				}
+			}
 			st.Must["detached-literal"] = true
 			a.Run(lit, st)
 		}
